@@ -280,6 +280,23 @@ def rule_linebreaks(run, prog):
                             ok, rec = run_pop(prefix, sp * count + nxt + "z", sp * count + nxt, kw)
                             if not ok and bad["splice"] is None:
                                 bad["splice"] = rec
+            # a spelling cut in two by a splice (`<` splice `:`): whatever pop() decides to take, the position it leaves is the
+            # position of the raw offset it leaves
+            for sp in ("\\\n", "??/\n"):
+                for d_ in sorted(di) + sorted(tri):
+                    for cut in range(1, len(d_)):
+                        body = d_[:cut] + sp + d_[cut:] + "z"
+                        for kw in flags[:2]:
+                            n["splice"] += 1
+                            sim = LexerSim(prog, " " * prefix + body)
+                            if prefix:
+                                sim.call("pop", times=prefix)
+                            out = sim.call("pop", **kw)
+                            if out.kind != "ok":
+                                continue
+                            want = _ref_advance(1, 1 + prefix, body[:sim.pos - prefix], tri, di)
+                            if (sim.line, sim.line_pos) != want and bad["splice"] is None:
+                                bad["splice"] = (body, kw, (sim.line, sim.line_pos), want, out, sim.pos, sim.pos)
             for sp in ("\\\n", "??/\n"):
                 for count in (1, 2, 3):
                     n["gnt"] += 1
